@@ -72,3 +72,12 @@ def str_eq(a, b):
     for i in range(len(b)):
         ok = ok & (ord(a[i]) == ord(b[i]))
     return True if ok else False
+
+
+def pick_int(x, lo, hi):
+    """Case split of an int known to lie in [lo, hi] by equality tests: exactly one path per value (deep_realize on several
+    ints was measured to revisit the same assignment many times: 264 leaves for 32 assignments)."""
+    for v in range(lo, hi):
+        if x == v:
+            return v
+    return hi
